@@ -1,7 +1,7 @@
 """C04 — Every built-in kernel leaves the target distribution invariant.
 
 Joint ("prior-predictive") trick: for model families that can be sampled jointly, (theta_0, y) ~ p(theta) p(y | theta) is drawn with numpy,
-so theta_0 | y is an EXACT posterior draw for every family, conjugate or not.  One chain per joint draw (N = 4096 chains, each with its own
+so theta_0 | y is an EXACT posterior draw for every family, conjugate or not.  One chain per joint draw (N = 8192 chains, each with its own
 data set inside its model state) is run for K transitions through the real Engine with fixed tuning (burn-in / posterior epoch, no
 adaptation).  Invariance  =>  (theta_K, y) is again a joint draw.  Tests (policy of DESIGN 2.6): KS of every prior-PIT coordinate of
 theta_K against U(0,1); paired-drift z-tests of u_j, u_j^2, u_i u_j, u_j v(y) and of the log-likelihood between step 0 and step K.
@@ -28,11 +28,11 @@ from liesel.goose.kernel_sequence import KernelSequence
 PROPERTY = "C04"
 RULE = ("cases = (family, dict or Liesel model, kernel sequence over disjoint blocks from {NUTS, HMC, IWLS, RW, MH-drift, Gibbs}, fixed tuning: "
         "step size over 1.5 decades, diagonal / dense inverse mass matrix, tree depth / integration steps, K in 1..25 transitions, epoch type "
-        "burn-in or posterior, data size 3-12, seeds); N = 4096 chains per case (thorough 16384). Non-trivial = acceptance rate strictly between "
+        "burn-in or posterior, data size 3-12, seeds); N = 8192 chains per case (confirmation stage 32768). Non-trivial = acceptance rate strictly between "
         "2% and 98% (or NUTS / Gibbs), every block moved in >= 50% of chains, K >= 3. Distinct = SHA-1 of the case")
 ASSUMPTIONS = [
     "statistical decision: |z| > 6 (KS p < 2e-9) at N, then three independent confirmations at 4N with |z| > 4 and the same sign",
-    "detection floor: a stationary-distribution error that shifts a PIT moment by about 0.1 posterior sd after K steps at N = 4096 (thorough: 16384)",
+    "detection floor: a stationary-distribution error that shifts a PIT moment by about 0.1 posterior sd after K steps at N = 8192",
     "joint draws (theta, y) are generated with numpy, independent of liesel's simulate()",
 ]
 SHARDS = {"quick": 16, "thorough": 16}
@@ -471,7 +471,7 @@ def oracle(c):
         info.update(accept=accept, moved=moved, errs=errs)
         return statistics(fam, th0, thK, y)
 
-    N = 4096
+    N = 8192
     sig, rep = stats.decide(stat, N, 1)
     if sig:
         kinds = "+".join(k["kind"] for k in c["kernels"])
